@@ -139,4 +139,19 @@ def parseConnect (req : Str) : Option ConnectReq :=
     | _, _ => none
   | _ => none
 
+/-- the status of a proxy reply, RFC 7230 §3.1.2 (`HTTP-version SP 3DIGIT SP reason CRLF`), the
+    head being complete (ended by an empty line).  `none` = not such a head: the property then
+    only asks that the client does not treat it as anything but success-or-proxy-error. -/
+def replyStatus (reply : Str) : Option Nat :=
+  match crlfLines reply with
+  | l0 :: rest =>
+    if !rest.dropLast.contains [] then none   -- no empty line ended by CRLF: head incomplete
+    else if !(rest.takeWhile (· != [])).all (·.contains ':') then none   -- a field line without ":"
+    else match splitOn ' ' l0 with
+      | v :: code :: _ =>
+        if "HTTP/".toList.isPrefixOf v && code.length == 3 && code.all isDigitC then some (digitsVal code)
+        else none
+      | _ => none
+  | [] => none
+
 end WS.Spec.NoProxy
